@@ -66,6 +66,7 @@ type Explorer struct {
 	// aggregated stats
 	Paths, Decisions                       int
 	Queries, NSat, NUnsat, NUnknown, NErrs int
+	ErrorSample string
 	SolverSec                              float64
 	FnInstr                                map[string]int64
 	StubHit                                map[string]int
@@ -217,6 +218,9 @@ func (e *Explorer) Run() error {
 			e.NUnsat += sol.NUnsat
 			e.NUnknown += sol.NUnknown
 			e.NErrs += sol.Errors
+			if e.ErrorSample == "" {
+				e.ErrorSample = sol.ErrorSample
+			}
 			e.SolverSec += sol.SolverSec
 			for f, n := range in.fnInstr {
 				e.FnInstr[f.String()] += n
